@@ -299,6 +299,8 @@ func bulkCase(w *wire.Writer, nch, nver, nruns int) *wire.Case {
 	in.Parents = []annot.Parent{par}
 	status, count, sorted, identical := 0, 0, true, true
 	first := ""
+	var hashes []uint64
+	var windows []osm.Updates
 	for r := 0; r < nruns; r++ {
 		o := in.Run()
 		if o.Status != 0 {
@@ -307,15 +309,46 @@ func bulkCase(w *wire.Writer, nch, nver, nruns int) *wire.Case {
 		}
 		count = len(o.Updates[0])
 		sorted = sorted && sortedITV(o.Updates[0])
-		k := fmt.Sprintf("%x", sha256.Sum256([]byte(o.Key())))
+		sum := sha256.Sum256([]byte(o.Key()))
+		k := fmt.Sprintf("%x", sum)
+		var h uint64
+		for _, b := range sum[:7] {
+			h = h<<8 | uint64(b)
+		}
+		hashes = append(hashes, h)
 		if r == 0 {
+			// windows of the list shipped to Coq: the beginning, the end, and around 2^15 and 2^16
+			us := o.Updates[0]
+			for _, at := range []int{0, 1 << 15, 1 << 16, len(us)} {
+				lo, hi := at-25, at+25
+				if lo < 0 {
+					lo = 0
+				}
+				if hi > len(us) {
+					hi = len(us)
+				}
+				if lo < hi {
+					windows = append(windows, us[lo:hi])
+				}
+			}
 			first = k
 		} else if k != first {
 			identical = false
 		}
 	}
 	c := &wire.Case{Class: "bulk"}
-	c.Int(3).Int(int64(nch)).Int(int64(nver)).Int(int64(nruns)).Int(int64(status)).Int(int64(count)).Bool(sorted).Bool(identical)
+	c.Int(3).Int(int64(nch)).Int(int64(nver)).Int(int64(nruns)).Int(int64(status)).Int(int64(count)).Bool(sorted)
+	c.Len(len(hashes))
+	for _, h := range hashes {
+		c.Tok(h)
+	}
+	c.Len(len(windows))
+	for _, win := range windows {
+		c.Len(len(win))
+		for _, u := range win {
+			annot.EncUpdate(c, u)
+		}
+	}
 	switch {
 	case status != 0:
 		c.OracleFail = "annotation of a large history failed"
@@ -608,8 +641,16 @@ func main() {
 		w.Add(c)
 		// (e) bulk observation with one update missing
 		c = &wire.Case{Class: "canary", Canary: 1}
-		c.Int(3).Int(5).Int(7).Int(3).Int(0).Int(34).Bool(true).Bool(true)
+		c.Int(3).Int(5).Int(7).Int(3).Int(0).Int(34).Bool(true)
+		c.Len(3).Tok(11).Tok(11).Tok(11)
+		c.Len(0)
 		c.Desc = "canary: bulk case reporting 34 updates for 5 children x 7 later versions"
+		w.Add(c)
+		c = &wire.Case{Class: "canary", Canary: 1}
+		c.Int(3).Int(5).Int(7).Int(3).Int(0).Int(35).Bool(true)
+		c.Len(3).Tok(11).Tok(12).Tok(11)
+		c.Len(0)
+		c.Desc = "canary: bulk case whose second run has a different hash"
 		w.Add(c)
 	}
 	if err := w.Flush(a.Out, "Verif.C12.Check", 60); err != nil {
